@@ -50,6 +50,8 @@ impl TimeSnapshot {
                 + t * self.root_variance_linear
                 + t.powi(2) * self.root_variance_quadratic
                 + t.powi(3) * self.root_variance_cubic)
+                // rounding can leave a (tiny) negative variance; never take its root
+                .max(0.0)
                 .sqrt(),
         )
     }
